@@ -188,7 +188,8 @@ def check_rsa(tup, acc, via="construct", budget=CPU_BUDGET):
         name = type(val).__name__
         acc.violation("C05/rsa/%s/%s" % (name, rsa_degenerate(tup)),
                       pre + ": raised %s: %s at %s (reference class of the input: %s; the property demands ValueError)"
-                      % (name, val, exc_site(val), rsa_input_class(tup)), case, script=script, size=tsize(tup))
+                      % (name, val, exc_site(val), rsa_input_class(tup)), case, script=script,
+                      size=tsize(tup) + (60 if tup[1] < 3 else 0) + (60 if L > 2 and tup[2] < 2 else 0))
         return name
     key = val
     prop, other = rsa_key_bad(key)
